@@ -77,4 +77,5 @@ PROPS['C01'] = dict(level='model_checking',
   bounds='same harness family as C04 (exactly-once / nothing-before-start / never-started assertions), plus C05 sequential catalogue',
   outside='I/O context senders, thread pools (see C06)',
   harnesses=[SEQ('ev_%s_f%d' % (n, f), 'C04_events.cpp', 'h_ev_' + n, opts=dict(params=[f]), desc=n + ': exactly one completion under every event order; flags=%d' % f) for n in EV for f in (0, 1, 3, 5, 7)] +
-            [SEQ('never_started', 'C04_events.cpp', 'h_never_started', desc='connected but never started: no signal, no child started')])
+            [SEQ('never_started', 'C04_events.cpp', 'h_never_started', desc='connected but never started: no signal, no child started'),
+             H('wa_last_child_vs_stop', 'C01_race.cpp', ['h_complete1', 'h_stop'], 34, setup='h_setup_wa', final='h_final_wa', desc='when_all: last child completing races an external stop request (real atomics)')])
